@@ -85,7 +85,7 @@ def explore(ctx, build, streams, impls_for, prop_name):
                         continue
                 # model vs code (only meaningful when the specification has no complaint)
                 mk = MODEL_OF[impl]
-                if stream == "big" or not build.driver_ok:
+                if stream in ("big", "huge") or not build.driver_ok:
                     continue
                 if mk not in models:
                     models[mk] = C.run([C.DRIVER, "disk", mk], input="\n".join(ops) + "\n", env=os.environ.copy()).stdout.splitlines()
@@ -147,7 +147,7 @@ def check(ctx):
         ctx.coverage["leanchecker"] = "ok" if ok else out
     ctx.assumptions += [
         "Linux pread/pwrite/ftruncate on a regular file behave as Model/Disk.lean's OS-file model says (sampled by every file-backed run)",
-        "offset arithmetic is modelled in unbounded Nat; exact for disks below 2^51 blocks; the `big` stream exercises offsets beyond 2^32 bytes on sparse files",
+        "offset arithmetic is modelled in unbounded Nat; NewFileDisk refuses block counts above MaxInt64/BlockSize and for every disk it opens the uint64/int64 offsets equal the Nat ones (Props/C11 openable_offsets_exact); the `big` stream exercises offsets beyond 2^32 bytes on sparse files",
         "ReadTo into a buffer that is not 4096 bytes is outside the quantifier (MemDisk copies a prefix, FileDisk panics): compared against the models only",
         "hand-written models are tied by canonical declaration text (any edit of machine/disk breaks facts_ok) and by sampling",
     ]
